@@ -130,3 +130,77 @@ pub async fn handle_housekeeping(
     )
     .await
 }
+
+// The wrappers below hand out the shell function's OWN future instead of awaiting
+// it inside a second `async fn`: a nested coroutine keeps the inner future in a
+// state variant of the outer one, which hides every constant argument from the
+// model checker. Add-only, no logic.
+
+#[allow(clippy::too_many_arguments)]
+pub fn process_uplink_packet_fut<'a>(
+    conn: &'a mut SrtlaConnection,
+    conn_idx: usize,
+    reg: &'a mut SrtlaRegistrationManager,
+    local_listener: &'a UdpSocket,
+    instant_forwarder: &'a UnboundedSender<(SocketAddr, SmallVec<u8, 64>)>,
+    client_addr: Option<SocketAddr>,
+    data: &'a [u8],
+) -> impl std::future::Future<Output = Result<SrtlaIncoming>> + 'a {
+    super::uplink_recv::process_uplink_packet(
+        conn,
+        conn_idx,
+        reg,
+        local_listener,
+        instant_forwarder,
+        client_addr,
+        data,
+    )
+}
+
+#[allow(clippy::too_many_arguments)]
+pub fn process_connection_events_fut<'a>(
+    idx: usize,
+    connections: &'a mut [SrtlaConnection],
+    last_client_addr: Option<SocketAddr>,
+    local_listener: &'a UdpSocket,
+    seq_tracker: &'a SequenceTracker,
+    classic: bool,
+    incoming: SrtlaIncoming,
+) -> impl std::future::Future<Output = Result<()>> + 'a {
+    super::packet_handler::process_connection_events(
+        idx,
+        connections,
+        last_client_addr,
+        local_listener,
+        seq_tracker,
+        classic,
+        incoming,
+    )
+}
+
+#[allow(clippy::too_many_arguments)]
+pub fn handle_srt_packet_fut<'a>(
+    res: Result<(usize, SocketAddr), std::io::Error>,
+    recv_buf: &'a mut [u8],
+    connections: &'a mut [SrtlaConnection],
+    conn_io: &'a ConnIoMap,
+    last_selected_idx: &'a mut Option<usize>,
+    seq_tracker: &'a mut SequenceTracker,
+    last_client_addr: &'a mut Option<SocketAddr>,
+    registration_complete: bool,
+    config_snap: &'a ConfigSnapshot,
+    critical_window: &'a srtla_core::priority::CriticalWindow,
+) -> impl std::future::Future<Output = ()> + 'a {
+    super::packet_handler::handle_srt_packet(
+        res,
+        recv_buf,
+        connections,
+        conn_io,
+        last_selected_idx,
+        seq_tracker,
+        last_client_addr,
+        registration_complete,
+        config_snap,
+        critical_window,
+    )
+}
